@@ -257,6 +257,26 @@ class PrevOracle:
                     return "stg repair dropped patches: %r" % sorted(before - after)
                 if set(pst["hidden"]) - set(st["hidden"]) - set(st["applied"]):
                     return "stg repair un-hid a patch that is not applied"
+                path = real.r.git(["rev-list", "--first-parent", snap["branch"]]).stdout.split()
+                stop = len(path)
+                for k, o in enumerate(path):
+                    if len(real.r.git(["rev-list", "--parents", "-n", "1", o]).stdout.split()) != 2:
+                        stop = k                  # a merge (or the root): repair does not look below it
+                        break
+                on_path = set(path[:stop])
+                left = [n for n in st["unapplied"] + st["hidden"] if st["patches"][n]["oid"] in on_path]
+                base_like = [n for n in left]
+                if left and not st["applied"]:
+                    return ("stg repair applied nothing although the commits of %r are on the first-parent path "
+                            "of the branch" % left)
+                if st["applied"]:
+                    # every patch commit ABOVE the lowest applied patch on the path must be applied too
+                    low = min(path.index(st["patches"][n]["oid"]) for n in st["applied"] if st["patches"][n]["oid"] in path) \
+                        if any(st["patches"][n]["oid"] in path for n in st["applied"]) else None
+                    if low is not None:
+                        missed = [n for n in left if path.index(st["patches"][n]["oid"]) < low]
+                        if missed:
+                            return "stg repair left %r unapplied although their commits are above applied patches on the branch" % missed
         if c["c"] == "uncommit":
             if cur["branch"] != prev["branch"] or cur["wt"] != prev["wt"] or cur["status"] != prev["status"]:
                 return "stg uncommit changed the branch head, index or work tree"
@@ -373,8 +393,29 @@ class ContentOracle:
         cur = {k: v["oid"] for k, v in st["patches"].items()} if st else {}
         prev, self.prev = self.prev, cur
         head_before, self.head_tree = getattr(self, "head_tree", None), real.commit_info(snap["branch"])["tree"]
+        applied_before, self.prev_applied = getattr(self, "prev_applied", []), (list(st["applied"]) if st else [])
         if prev is None or st is None or c["c"] not in self.REORDER or ex not in (0, 3):
             return None
+        merged_set = set()
+        if "merged" in c.get("flags", []) and head_before:
+            # --merged, as documented: walking the patches to push from the last to the first,
+            # a patch whose reverse applies to the (progressively reverted) tree that was checked
+            # out before the command counts as merged upstream and is pushed as an empty patch
+            prev_applied = set(applied_before)
+            pushed = [n for n in st["applied"] if n not in prev_applied and n in prev]
+            t = list(head_before)
+            for n in reversed(pushed):
+                oi0 = real.commit_info(prev[n])
+                if not oi0["parents"]:
+                    continue
+                op0 = real.commit_info(oi0["parents"][0])
+                if oi0["tree"] is None or op0["tree"] is None:
+                    continue
+                ch = [k for k in range(len(t)) if op0["tree"][k] != oi0["tree"][k]]
+                if all(t[k] == oi0["tree"][k] for k in ch):
+                    merged_set.add(n)
+                    for k in ch:
+                        t[k] = op0["tree"][k]
         for n, oid in cur.items():
             old = prev.get(n)
             if old is None or old == oid:
@@ -387,19 +428,21 @@ class ContentOracle:
                 continue
             if c["c"] == "pop" and not c.get("ranges"):
                 return "popping re-created the commit of patch %r" % n
+            if "set-tree" in c.get("flags", []):
+                continue                         # --set-tree keeps the patch's tree by definition
             exp = cell_merge(op["tree"], np_["tree"], oi["tree"])
+            if n in merged_set and ni["tree"] == np_["tree"]:
+                if exp is not None and ni["tree"] != exp:
+                    # emptied by definition of --merged although the patches pushed beneath it
+                    # re-introduce what it undoes: its change is lost (known finding F37)
+                    return ("merged-heuristic: --merged emptied patch %r (its reverse applies to the tree "
+                            "checked out before the push) although the patches pushed beneath it re-introduce "
+                            "what it undoes" % n)
+                continue                         # merged upstream: an empty patch is the documented result
             if exp is None:
                 if ex == 0 and n in st["applied"]:
                     return "patch %r was pushed without a conflict although its change overlaps what lies beneath" % n
                 continue
-            if "set-tree" in c.get("flags", []):
-                continue
-            if ni["tree"] != exp and "merged" in c.get("flags", []) and ni["tree"] == np_["tree"] and head_before \
-                    and all(head_before[k] == oi["tree"][k] for k in range(len(exp)) if op["tree"][k] != oi["tree"][k]):
-                # the patch was emptied because its reverse applies to the head tree as it was BEFORE the
-                # command: that is --merged's definition of "merged upstream" (known finding F37)
-                return ("merged-heuristic: --merged emptied patch %r (its reverse applies to the tree checked out "
-                        "before the push) although the patches pushed beneath it re-introduce what it undoes" % n)
             if ni["tree"] != exp:
                 return "pushed patch %r does not carry the three-way merge of (old parent, new parent, patch): %r != %r" % (
                     n, ni["tree"], exp)
@@ -494,6 +537,116 @@ def oracle_c09(real, snap, graph, i, c, ex, stderr):
     return None
 
 
+def oracle_halt_keeps_patches(state):
+    """C09: a command that stops with a conflict leaves every patch of the stack in exactly one
+    list - the ones it did not get to are unapplied (hidden ones stay hidden); only `delete`
+    and `commit` may remove the patches they were given"""
+    def orc(real, snap, graph, i, c, ex, stderr):
+        st = stack_json(real, snap)
+        fail = None
+        cur = None
+        if st is not None:
+            cur = {"A": list(st["applied"]), "U": list(st["unapplied"]), "H": list(st["hidden"]),
+                   "P": set(st["patches"])}
+        prev = state.get("prev")
+        if ex == 3 and prev and cur:
+            listed = cur["A"] + cur["U"] + cur["H"]
+            before = set(prev["A"] + prev["U"] + prev["H"])
+            if len(set(listed)) != len(listed):
+                fail = "after the conflict halt a patch is listed twice: %r" % listed
+            elif set(listed) != cur["P"]:
+                fail = "after the conflict halt the patch map and the lists disagree: %r vs %r" % (
+                    sorted(cur["P"]), listed)
+            elif c["c"] not in ("delete", "commit", "clean") and not before <= set(listed):
+                fail = "the conflict halt dropped patches from the stack: %r" % sorted(before - set(listed))
+            elif all(x in before for x in (c.get("ranges") or []) + ([c["loc"]] if c.get("loc") else [])) and \
+                    not set(prev["H"]) - set(c.get("ranges") or []) - ({c.get("loc")} if c.get("loc") else set()) <= set(cur["H"]):
+                # (only when the arguments are plain patch names: a range such as `..q` may name hidden patches)
+                fail = "the conflict halt un-hid patches the command did not name"
+        state["prev"] = cur
+        return fail
+    return orc
+
+
+class OrderOracle:
+    """C07, list part, computed independently of the model for commands whose arguments are
+    plain patch names: the named patches end up at the requested place, adjacent and in the
+    requested order; every other patch keeps its position relative to the other others."""
+
+    def __init__(self):
+        self.prev = None
+
+    def __call__(self, real, snap, graph, i, c, ex, stderr):
+        st = stack_json(real, snap)
+        cur = (list(st["applied"]), list(st["unapplied"]), list(st["hidden"])) if st else None
+        prev, self.prev = self.prev, cur
+        k = c["c"]
+        if prev is None or cur is None or ex != 0 or k not in ("sink", "float", "push"):
+            return None
+        A0, U0, H0 = prev
+        A1, U1, H1 = cur
+        names = c.get("ranges")
+        if not names or any(n not in A0 + U0 for n in names) or len(set(names)) != len(names):
+            return None                       # ranges / locators / hidden patches: left to the model
+        if any(f in c.get("flags", []) for f in ("noapply", "reverse", "all")) or c.get("n") is not None:
+            return None
+        others0 = [n for n in A0 + U0 if n not in names]
+        others1 = [n for n in A1 + U1 if n not in names]
+        if others0 != others1:
+            return "`stg %s` changed the relative order of patches it was not given: %r -> %r" % (k, others0, others1)
+        pos = [(A1 + U1).index(n) for n in names if n in A1 + U1]
+        if len(pos) != len(names):
+            return "`stg %s` lost a patch it was given" % k
+        if k in ("sink", "float") and sorted(pos) != list(range(min(pos), min(pos) + len(pos))):
+            return "`stg %s %s` did not put the named patches next to each other: %r" % (k, names, A1 + U1)
+        if k == "float" and [n for n in A1 if n in names] == names and A1[-len(names):] != names:
+            return "`stg float %s` did not put the patches on top in the given order: %r" % (names, A1)
+        if k == "push" and A1[-len(names):] != names:
+            return "`stg push %s` did not put the patches on top in the given order: %r" % (names, A1)
+        if k == "sink":
+            t = c.get("target")
+            seq = A1 + U1
+            lo, hi = min(pos), max(pos)
+            if t is not None and t in A0 and t not in names:
+                ti = seq.index(t)
+                if c.get("above") and ti != lo - 1:
+                    return "`stg sink --above %s %s`: the patches are not directly above the target: %r" % (t, names, seq)
+                if not c.get("above") and ti != hi + 1:
+                    return "`stg sink --to %s %s`: the patches are not directly below the target: %r" % (t, names, seq)
+            if t is None and lo != 0:
+                return "`stg sink %s` did not put the patches at the bottom: %r" % (names, seq)
+        return None
+
+
+def oracle_fail_keeps_refs(state):
+    """C03 without any fault injection: a command error (exit 2) leaves the branch, the state ref
+    and the patch refs exactly as they were.  undo / redo record an external modification before
+    they start (their own log entry, by design); refresh and rebase consist of several
+    transactions (known finding F38 covers the first having been published)"""
+    def orc(real, snap, graph, i, c, ex, stderr):
+        refs = real.r.git(["for-each-ref", "--format=%(refname) %(objectname)", "refs/heads/main", "refs/stacks/main",
+                           "refs/patches/main/"]).stdout
+        prev, state["refs"] = state.get("refs"), refs
+        if prev is None or ex != 2 or c["c"] in ("undo", "redo", "refresh", "rebase") or c["c"].startswith("g"):
+            return None
+        if "refs/stacks/main " not in prev and "refs/stacks/main " in refs and \
+                [l for l in refs.split("\n") if not l.startswith("refs/stacks/main ")] == prev.split("\n"):
+            return None      # opening the stack initialised it (a completed step of its own) before the command failed
+        if refs != prev:
+            changed = sorted(set(prev.split("\n")) ^ set(refs.split("\n")))
+            names = sorted({x.split(" ")[0] for x in changed})
+            if names == ["refs/stacks/main"] and ("HEAD and stack top are not the same" in stderr
+                                                   or "git read-tree" in stderr or "git checkout" in stderr):
+                msg = real.r.git(["log", "-1", "--format=%s", "refs/stacks/main"]).stdout.strip()
+                if msg == "external modifications":
+                    # known finding F24, met without any injected fault: execute() records the
+                    # external modification and only then runs the head/top test resp. the check-out
+                    return "extmods: `stg %s` failed after log_external_mods had published its entry" % c["c"]
+            return "`stg %s` failed (exit 2) but changed refs: %r" % (c["c"], names[:6])
+        return None
+    return orc
+
+
 def oracle_conflict_guard(state):
     """while unmerged entries exist, commands that must check out another tree change nothing"""
     def orc(real, snap, graph, i, c, ex, stderr):
@@ -549,13 +702,15 @@ def build_oracles(names):
         elif n == "log":
             out.append(LogOracle())
         elif n == "c09":
-            out += [oracle_c09, oracle_conflict_guard({})]
+            out += [oracle_c09, oracle_conflict_guard({}), oracle_halt_keeps_patches({})]
         elif n == "prev":
             out.append(PrevOracle())
+        elif n == "failkeeps":
+            out.append(oracle_fail_keeps_refs({}))
         elif n == "dirty":
             out.append(DirtyOracle())
         elif n == "content":
-            out.append(ContentOracle())
+            out += [ContentOracle(), OrderOracle()]
     return out
 
 
